@@ -2,7 +2,7 @@
   Lemmas/LCGood — the bundled invariant of M-LC (designation maps, client well-formedness, agreement)
   and its preservation by every op that satisfies the two side conditions (`SafeOp`).
 -/
-import DymVerif.Lemmas.LCAgree
+import DymVerif.Lemmas.LCDesig
 namespace DymVerif.LC
 open DymVerif.Core (Addr NextP)
 
@@ -10,24 +10,24 @@ structure Good (s : St) : Prop where
   maps : MapsInv s
   clients : ClientsOk s
   agree : AgreeInv s
+  chain : CoreChain s
 
-/-- The two places where the current code does not by itself guarantee agreement:
-    * a designation is *sound* when every existing consensus state of the candidate at a height with a
-      descriptor agrees with it (the code's loop can stop early, see `set_canonical_…_counterexample`);
-    * a header update on a canonical client is *native* when the proposer it names is a sequencer of the
-      client's own rollapp (the code checks the header against the named proposer's rollapp). -/
+/-- every descriptor M-LC holds for the rollapp lies inside one of the rollapp's state infos (the
+    descriptor table is M-LC's copy of the descriptors stored in the state infos of M-Core) -/
+def DescsCovered (s : St) (ra : Nat) : Prop :=
+  ∀ h d, getDesc s ra h = some d → ∃ r st, Core.getRa s.core ra = some r ∧ st ∈ r.states ∧ st.start ≤ h ∧ h ≤ st.last
+
+/-- the only side condition left: at a designation the descriptor table is covered by the state infos -/
 def SafeOp (s : St) : Op → Prop
-  | .setCanonical c => ∀ cl, getClient s c = some cl → (setCanonical s c).2 = none →
-      ∀ h cs d, getCons cl h = some cs → getDesc s cl.chain h = some d → Agrees cs d
-  | .updateClient c .top hd _ => ∀ r q, lookup s.c2r c = some r → Core.getSeq s.core hd.propData = some q → q.rollapp = r
+  | .setCanonical c => ∀ cl, getClient s c = some cl → DescsCovered s cl.chain
   | _ => True
 
-theorem Good.of_eq {s s' : St} (h : Good s) (e1 : s'.clients = s.clients) (e2 : s'.descs = s.descs) (e3 : s'.r2c = s.r2c) (e4 : s'.c2r = s.c2r) : Good s' :=
-  ⟨h.maps.of_eq e3 e4 e1, h.clients.of_eq e1, (h.agree.toEx _ |>.of_eq e1 e2 e3).toInv⟩
+theorem Good.of_eq {s s' : St} (h : Good s) (e1 : s'.clients = s.clients) (e2 : s'.descs = s.descs) (e3 : s'.r2c = s.r2c) (e4 : s'.c2r = s.c2r)
+    (e5 : s'.core = s.core) : Good s' :=
+  ⟨h.maps.of_eq e3 e4 e1, h.clients.of_eq e1, (h.agree.toEx _ |>.of_eq e1 e2 e3).toInv, by unfold CoreChain; rw [e5]; exact h.chain⟩
 
-theorem good_coreOp {s : St} (h : Good s) (o : Core.Op) (ds : List (Nat × Option Nat)) : Good (coreOp s o ds).1 := by
-  have hshape := shape_coreOp s o ds
-  suffices key : ClientsOk (coreOp s o ds).1 ∧ AgreeInv (coreOp s o ds).1 from ⟨h.maps.of_shape hshape, key.1, key.2⟩
+theorem good_coreOp {s : St} (h : Good s) (o : Core.Op) (ds : List (Nat × Option Nat)) :
+    ClientsOk (coreOp s o ds).1 ∧ AgreeInv (coreOp s o ds).1 := by
   unfold coreOp
   cases hstep : Core.step s.core o with
   | mk core1 oe =>
@@ -41,11 +41,12 @@ theorem good_coreOp {s : St} (h : Good s) (o : Core.Op) (ds : List (Nat × Optio
         | none => exact ⟨h.clients, h.agree⟩
         | some s2 =>
           simp only
-          have g1 : Good { s with core := core1 } := h.of_eq rfl rfl rfl rfl
+          have g1 : MapsInv { s with core := core1 } ∧ ClientsOk { s with core := core1 } ∧ AgreeInv { s with core := core1 } :=
+            ⟨h.maps.of_eq rfl rfl rfl, h.clients.of_eq rfl, (h.agree.toEx _ |>.of_eq rfl rfl rfl).toInv⟩
           cases o with
           | update m =>
-            obtain ⟨a1, a2, a3, a4, a5, a6⟩ := withDescs_update hw g1.agree
-            have hc2 : ClientsOk s2 := g1.clients.of_eq a3
+            obtain ⟨a1, a2, a3, a4, a5, a6⟩ := withDescs_update hw g1.2.2
+            have hc2 : ClientsOk s2 := g1.2.1.of_eq a3
             cases hf : applyForks s2 (newForks s.core core1) with
             | mk s3 oe =>
               cases oe with
@@ -59,7 +60,7 @@ theorem good_coreOp {s : St} (h : Good s) (o : Core.Op) (ds : List (Nat × Optio
                   have hs23 : Shape s2 s3 := by
                     have := shape_applyForks (newForks s.core core1) s2
                     rw [hf] at this; exact this
-                  exact g1.maps.of_shape (hs12.trans hs23)
+                  exact g1.1.of_shape (hs12.trans hs23)
                 have hb3 : NewBound m ds.length s3 := fun d hd => a2 d (b3 d hd)
                 unfold finishUpdate
                 cases hr : Core.getRa s3.core m.ra with
@@ -91,12 +92,13 @@ theorem good_coreOp {s : St} (h : Good s) (o : Core.Op) (ds : List (Nat × Optio
               | some e => exact ⟨h.clients, h.agree⟩
               | none =>
                 simp only
-                obtain ⟨b1, b2, _, _⟩ := applyForks_props (E := fun _ _ => False) (newForks s.core core1) _ (g1.agree.toEx _) g1.clients
+                obtain ⟨b1, b2, _, _⟩ := applyForks_props (E := fun _ _ => False) (newForks s.core core1) _ (g1.2.2.toEx _) g1.2.1
                 rw [hf] at b1 b2
                 exact ⟨b2, b1.toInv⟩
 
-theorem good_createClient {s : St} (h : Good s) (chain : Nat) (p : CParams) (ht : Nat) (cs : Cons) : Good (createClient s chain p ht cs).1 := by
-  refine ⟨mapsInv_createClient h.maps chain p ht cs, ?_, ?_⟩
+theorem good_createClient {s : St} (h : Good s) (chain : Nat) (p : CParams) (ht : Nat) (cs : Cons) :
+    ClientsOk (createClient s chain p ht cs).1 ∧ AgreeInv (createClient s chain p ht cs).1 := by
+  refine ⟨?_, ?_⟩
   · intro x hx
     simp only [createClient, List.mem_append, List.mem_singleton] at hx
     rcases hx with hx | rfl
@@ -115,12 +117,13 @@ theorem good_createClient {s : St} (h : Good s) (chain : Nat) (p : CParams) (ht 
     subst b
     exact h.agree r c cl0 hh cs' d a' g0 g f
 
-theorem good_setCanonical {s : St} (h : Good s) (c : Nat) (hs : SafeOp s (.setCanonical c)) : Good (setCanonical s c).1 := by
-  refine ⟨mapsInv_setCanonical h.maps c, ?_, ?_⟩
+theorem good_setCanonical {s : St} (h : Good s) (c : Nat) (hs : SafeOp s (.setCanonical c)) :
+    ClientsOk (setCanonical s c).1 ∧ AgreeInv (setCanonical s c).1 := by
+  refine ⟨?_, ?_⟩
   · rcases setCanonical_cases s c with ⟨e, _⟩ | ⟨_, _, _, _, _, _, _, _, e⟩
     · rw [e]; exact h.clients
     · rw [e]; exact h.clients.of_eq rfl
-  · rcases setCanonical_cases s c with ⟨e, _⟩ | ⟨cl, r0, hcl, _, hnone, _, _, hok, e⟩
+  · rcases setCanonical_cases s c with ⟨e, _⟩ | ⟨cl, r0, hcl, hr0, hnone, _, hv, hok, e⟩
     · rw [e]; exact h.agree
     · rw [e]
       intro r c0 cl0 hh cs d a b g f
@@ -139,13 +142,17 @@ theorem good_setCanonical {s : St} (h : Good s) (c : Nat) (hs : SafeOp s (.setCa
           simp only [Option.some.injEq] at a
           subst a; subst hr
           rw [hcl] at b'; cases b'
-          exact hs cl hcl hok hh cs d g f'
+          -- the loop of validClient has looked at every state info that contains a consensus state
+          obtain ⟨r1, st, hr1, hst, h1, h2⟩ := hs cl hcl hh d f'
+          rw [hr0] at hr1; cases hr1
+          have hchain : Core.Chain r0.states := h.chain r0 (Core.getRa_mem hr0)
+          obtain ⟨d', hd', hag⟩ := validLoop_all hchain hv st hst hh cs h1 h2 g
+          rw [f'] at hd'; cases hd'
+          exact hag
         · exact absurd a (by simp)
 
-theorem good_updateClient {s : St} (h : Good s) (c : Nat) (w : Wrap) (hd : Hdr) (ibc : Bool) (hs : SafeOp s (.updateClient c w hd ibc)) :
-    Good (updateClient s c w hd ibc).1 := by
-  suffices key : ClientsOk (updateClient s c w hd ibc).1 ∧ AgreeInv (updateClient s c w hd ibc).1 from
-    ⟨h.maps.of_shape (shape_updateClient s c w hd ibc), key.1, key.2⟩
+theorem good_updateClient {s : St} (h : Good s) (c : Nat) (w : Wrap) (hd : Hdr) (ibc : Bool) :
+    ClientsOk (updateClient s c w hd ibc).1 ∧ AgreeInv (updateClient s c w hd ibc).1 := by
   unfold updateClient
   cases w with
   | nested => exact ⟨h.clients, h.agree⟩
@@ -159,8 +166,8 @@ theorem good_updateClient {s : St} (h : Good s) (c : Nat) (w : Wrap) (hd : Hdr) 
       | some e => exact ⟨h.clients, h.agree⟩
       | none =>
         simp only
-        obtain ⟨e1, e2, e3, e4, _, hchk⟩ := handleUpdate_ok hh
-        have g1 : Good s1 := h.of_eq e1 e2 e3 e4
+        obtain ⟨e1, e2, e3, e4, e5, hchk⟩ := handleUpdate_ok hh
+        have g1 : Good s1 := h.of_eq e1 e2 e3 e4 e5
         cases hcl : getClient s c with
         | none => exact ⟨g1.clients, g1.agree⟩
         | some cl =>
@@ -185,16 +192,15 @@ theorem good_updateClient {s : St} (h : Good s) (c : Nat) (w : Wrap) (hd : Hdr) 
               · exact h.agree r c0 cl hh' cs d a hcl g' f
               · subst eh; subst ec
                 have hcr := h.maps.r2c_c2r r c0 a
-                obtain ⟨q, hq, _, _, _, hag⟩ := hchk r hcr
-                exact hag (hs r q hcr hq) d f
+                obtain ⟨q, _, _, _, _, _, _, hag⟩ := hchk r hcr
+                exact hag d f
             · have hne : c0 ≠ (ibcApply cl hd).id := by rw [hidA]; exact hcc
               rw [getClient_setClient_ne hne, getClient_congr e1] at b
               exact h.agree r c0 cl0 hh' cs d a b g f
           · exact ⟨g1.clients, g1.agree⟩
 
-theorem good_misbehaviour {s : St} (h : Good s) (c : Nat) (k : MKind) (ibc : Bool) : Good (misbehaviour s c k ibc).1 := by
-  suffices key : ClientsOk (misbehaviour s c k ibc).1 ∧ AgreeInv (misbehaviour s c k ibc).1 from
-    ⟨h.maps.of_shape (shape_misbehaviour s c k ibc), key.1, key.2⟩
+theorem good_misbehaviour {s : St} (h : Good s) (c : Nat) (k : MKind) (ibc : Bool) :
+    ClientsOk (misbehaviour s c k ibc).1 ∧ AgreeInv (misbehaviour s c k ibc).1 := by
   unfold misbehaviour
   cases hcl : getClient s c with
   | none => exact ⟨h.clients, h.agree⟩
@@ -232,6 +238,8 @@ theorem chanInit_descs (s : St) (c : Nat) : (chanInit s c).1.descs = s.descs := 
   all_goals rfl
 
 theorem step_good {s : St} (h : Good s) (op : Op) (hs : SafeOp s op) : Good (step s op).1 := by
+  suffices key : ClientsOk (step s op).1 ∧ AgreeInv (step s op).1 from
+    ⟨step_mapsInv h.maps op, key.1, key.2, step_coreChain h.chain op⟩
   cases op with
   | core o ds => exact good_coreOp h o ds
   | createClient chain p ht cs => exact good_createClient h chain p ht cs
@@ -240,14 +248,18 @@ theorem step_good {s : St} (h : Good s) (op : Op) (hs : SafeOp s op) : Good (ste
     simp only [step]
     split
     · rename_i s1 he; rw [he] at this; exact this
-    · exact h
-  | updateClient c w hd ibc => exact good_updateClient h c w hd ibc hs
+    · exact ⟨h.clients, h.agree⟩
+  | updateClient c w hd ibc => exact good_updateClient h c w hd ibc
   | misbehaviour c k ibc => exact good_misbehaviour h c k ibc
-  | chanInit c => obtain ⟨a, b, d⟩ := chanInit_maps s c; exact h.of_eq d (chanInit_descs s c) a b
-  | chanAck ch ibc => obtain ⟨a, b, d⟩ := chanAck_maps s ch ibc; exact h.of_eq d (chanAck_descs s ch ibc) a b
+  | chanInit c =>
+    obtain ⟨a, _, d⟩ := chanInit_maps s c
+    exact ⟨h.clients.of_eq d, (h.agree.toEx _ |>.of_eq d (chanInit_descs s c) a).toInv⟩
+  | chanAck ch ibc =>
+    obtain ⟨a, _, d⟩ := chanAck_maps s ch ibc
+    exact ⟨h.clients.of_eq d, (h.agree.toEx _ |>.of_eq d (chanAck_descs s ch ibc) a).toInv⟩
 
 theorem init_good (p : Core.Params) : Good (init p) :=
-  ⟨init_mapsInv p, fun _ h => by simp [init] at h, fun _ _ _ _ _ _ a => by simp [init, lookup] at a⟩
+  ⟨init_mapsInv p, fun _ h => by simp [init] at h, fun _ _ _ _ _ _ a => by simp [init, lookup] at a, init_coreChain p⟩
 
 /-- every op of the run satisfies its side condition in the state it is applied to -/
 def SafeRun : St → List Op → Prop
